@@ -215,7 +215,12 @@ where
                             continue;
                         }
                     }
-                    self.last_accepted_stream = Some(s.send_id());
+                    // The transport is free to hand out streams in another order than that of
+                    // their ids: GOAWAY is computed from the highest id accepted so far.
+                    self.last_accepted_stream = Some(
+                        self.last_accepted_stream
+                            .map_or(s.send_id(), |last| last.max(s.send_id())),
+                    );
                     self.ongoing_streams.insert(s.send_id());
                     Poll::Ready(Ok(Some(s)))
                 }
